@@ -1,6 +1,7 @@
 #!/usr/bin/env python3
 """C12 - a mounted layer stays usable; a released layer gives back all its resources (Layer.tla)."""
-import os, sys, json
+import os, sys, json, threading
+from concurrent.futures import ThreadPoolExecutor
 sys.path.insert(0, os.path.dirname(os.path.dirname(os.path.abspath(__file__))))
 from vlib import *
 
@@ -9,6 +10,22 @@ INTERNAL = ("RefsAccount", "LockOK", "CachedIsLive")
 AB = '{"a", "b"}'
 # formulas that are checked one after the other: a (known) finding on the first must not hide the others
 SEPARATE = ("NoOpenFilesAfterClose",)
+VLOCK = threading.Lock()
+
+
+def par(run, tasks, n=4):
+    """run small TLC jobs side by side (each with 1-2 workers, at most n at a time); first exception wins.
+    vlib numbers its scratch directories with a plain counter, so _prep is serialised here."""
+    if not getattr(run, "_c12_locked", False):
+        lock, orig = threading.Lock(), run._prep
+        def locked(*a, **k):
+            with lock:
+                return orig(*a, **k)
+        run._prep = locked
+        run._c12_locked = True
+    with ThreadPoolExecutor(max_workers=n) as ex:
+        futs = [ex.submit(t) for t in tasks]
+        return [f.result() for f in futs]
 
 
 def names_of(ov):
@@ -31,10 +48,11 @@ def monitor_all(run, trace_path, ov, events, what):
         idx = line - tr[0]
         bad = events[line - 1]
         sig = "monitor:%s:%s:%s" % (viol, what.split("-")[0], bad.get("ev"))
-        run.violation(sig, "%s false on the recorded implementation state after event %d (%s) of a %s trace" % (viol, idx, bad.get("ev"), what),
-                      {"formula": viol, "mode": what, "event_index": idx,
-                       "steps": [{k: v for k, v in e.items() if k != "obs"} for e in tr[1][: idx + 1]],
-                       "state": bad.get("obs"), "detail": bad.get("detail")})
+        with VLOCK:
+            run.violation(sig, "%s false on the recorded implementation state after event %d (%s) of a %s trace" % (viol, idx, bad.get("ev"), what),
+                          {"formula": viol, "mode": what, "event_index": idx,
+                           "steps": [{k: v for k, v in e.items() if k != "obs"} for e in tr[1][: idx + 1]],
+                           "state": bad.get("obs"), "detail": bad.get("detail") or bad.get("readdetail")})
         log("[monitor] %s: %s false at event %d (%s) %s" % (what, viol, idx, bad.get("ev"), bad.get("detail", "")))
         if viol not in SEPARATE:
             break
@@ -57,29 +75,35 @@ def check(run):
         "free-running traces are decided by the monitor only (local samples by the holder, complete projection at quiescent points)",
     ]
     # ---------------------------------------------------------------- M
-    if thorough:
+    skip_mc = os.environ.get("VERIF_C12_BINDING_ONLY") == "1"   # development aid (mutant runs): binding stages only
+    if skip_mc:
+        run.inconclusive.append("VERIF_C12_BINDING_ONLY=1: model-checking stage skipped, not a complete check")
+    elif thorough:
         run.tlc_mc("Layer", "Layer_mc.cfg", None, workers=8, timeout=3000, name="Layer_mc.cfg 1 name 3 holders 4 resolves")
-        run.tlc_mc("Layer", "Layer_mc.cfg", {"Names": AB, "NH": "2", "MaxR": "3", "MaxFault": "1"}, workers=8, timeout=3000, name="Layer_mc.cfg 2 names 2 holders 3 resolves")
-        run.tlc_mc("Layer", "Layer_mc.cfg", {"NH": "2", "MaxR": "3", "TrackFiles": "TRUE"}, workers=8, timeout=3000, name="Layer_mc.cfg files")
-    else:
-        run.tlc_mc("Layer", "Layer_mc.cfg", {"NH": "2", "MaxR": "3"}, workers=4, timeout=900, name="Layer_mc.cfg 1 name 2 holders 3 resolves")
-        run.tlc_mc("Layer", "Layer_mc.cfg", {"Names": AB, "NH": "2", "MaxR": "2", "MaxFault": "1"}, workers=4, timeout=900, name="Layer_mc.cfg 2 names 2 holders 2 resolves")
-        run.tlc_mc("Layer", "Layer_mc.cfg", {"NH": "2", "MaxR": "2", "MaxFault": "1", "TrackFiles": "TRUE"}, workers=4, timeout=900, name="Layer_mc.cfg files")
+        par(run, [lambda: run.tlc_mc("Layer", "Layer_mc.cfg", {"Names": AB, "NH": "2", "MaxR": "3", "MaxFault": "1"}, workers=3, timeout=3000,
+                                     name="Layer_mc.cfg 2 names 2 holders 3 resolves"),
+                  lambda: run.tlc_mc("Layer", "Layer_mc.cfg", {"NH": "2", "MaxR": "3", "TrackFiles": "TRUE"}, workers=2, timeout=3000, name="Layer_mc.cfg files")])
+    if not skip_mc and not thorough:
+        par(run, [lambda: run.tlc_mc("Layer", "Layer_mc.cfg", {"NH": "2", "MaxR": "3"}, workers=2, timeout=900, name="Layer_mc.cfg 1 name 2 holders 3 resolves"),
+                  lambda: run.tlc_mc("Layer", "Layer_mc.cfg", {"Names": AB, "NH": "2", "MaxR": "2", "MaxFault": "1"}, workers=2, timeout=900,
+                                     name="Layer_mc.cfg 2 names 2 holders 2 resolves"),
+                  lambda: run.tlc_mc("Layer", "Layer_mc.cfg", {"NH": "2", "MaxR": "2", "MaxFault": "1", "TrackFiles": "TRUE"}, workers=1, timeout=900,
+                                     name="Layer_mc.cfg files")])
     small = {"NH": "2", "MaxR": "3"}
-    for guard, expect in (("ResolveLock", ["NoDuplicateCreation", "ReturnedIsCached"]),
-                          ("CloseWaitsForHolders", ["HeldLayerServes", "ReadWorks"]),
-                          ("LayerKeepsBlobRef", ["HeldLayerServes", "ReadWorks"]),
-                          ("CleanupOnFailure", ["FailedResolveLeaksNothing", "AllReleasedAndEvictedFreesEverything"]),
-                          ("IdentityEvict", ["AllReleasedAndEvictedFreesEverything"]),
-                          ("CloseReleasesBlob", ["AllReleasedAndEvictedFreesEverything"])):
-        run.tlc_negctl("Layer", "Layer_mc.cfg", dict(small, **{guard: "FALSE"}), expect, drop=INTERNAL)
-    run.tlc_negctl("Layer", "Layer_mc.cfg", dict(small, TrackFiles="TRUE", CloseFiles="FALSE"), ["NoOpenFilesAfterClose"], drop=INTERNAL)
+    ctl = [(dict(small, **{guard: "FALSE"}), expect) for guard, expect in (
+        ("ResolveLock", ["NoDuplicateCreation", "ReturnedIsCached"]),
+        ("CloseWaitsForHolders", ["HeldLayerServes", "ReadWorks"]),
+        ("LayerKeepsBlobRef", ["HeldLayerServes", "ReadWorks"]),
+        ("CleanupOnFailure", ["FailedResolveLeaksNothing", "AllReleasedAndEvictedFreesEverything"]),
+        ("IdentityEvict", ["AllReleasedAndEvictedFreesEverything"]),
+        ("CloseReleasesBlob", ["AllReleasedAndEvictedFreesEverything"]))]
+    ctl.append((dict(small, TrackFiles="TRUE", CloseFiles="FALSE"), ["NoOpenFilesAfterClose"]))
+    par(run, [] if skip_mc else [(lambda o=o, x=x: run.tlc_negctl("Layer", "Layer_mc.cfg", o, x, workers=1, drop=INTERNAL)) for o, x in ctl])
 
     # ---------------------------------------------------------------- R
     # (name, overrides of Layer_gen.cfg, walks: None = cover every edge, n = a sample of n covering walks)
     gens = [("one", {"NH": "2", "MaxR": "2", "MaxFault": "1"}, None),
-            ("extras", {"NH": "2", "MaxR": "2", "MaxFault": "0", "Extras": "TRUE"}, None),
-            ("two", {"Names": AB, "NH": "2", "MaxR": "2", "MaxFault": "0"}, 60)]
+            ("extras", {"NH": "2", "MaxR": "2", "MaxFault": "0", "Extras": "TRUE"}, None)]
     if thorough:
         gens = [("one3", {"NH": "2", "MaxR": "3", "MaxFault": "1"}, None),
                 ("one2f", {"NH": "2", "MaxR": "2", "MaxFault": "2"}, None),
@@ -88,8 +112,8 @@ def check(run):
                 ("two", {"Names": AB, "NH": "2", "MaxR": "2", "MaxFault": "0"}, None)]
     jobs = []
     exhaustive = True
-    for name, ov, sample in gens:
-        inits, edges = run.tlc_edges("LayerGen", "Layer_gen.cfg", ov, timeout=2400)
+    graphs = par(run, [(lambda ov=ov: run.tlc_edges("LayerGen", "Layer_gen.cfg", ov, timeout=2400)) for _, ov, _ in gens])
+    for (name, ov, sample), (inits, edges) in zip(gens, graphs):
         walks, st = edge_cover(inits, edges, maxlen=45, rng=run.rng, extra_walks=(100 if thorough else 15) if sample is None else 0,
                                max_walks=sample)
         log("[walks] %s: %s" % (name, st))
@@ -111,18 +135,28 @@ def check(run):
         # the race detector reported a race on the state the property is about; the traces were still written
         m = re.search(r"WARNING: DATA RACE\n(?:.*\n){0,40}", out)
         run.violation("datarace:fs/layer", "data race reported in package fs/layer under the driver", {"log": (m.group(0) if m else out[-6000:])})
-    for j in jobs:
+    def validate(j):
         events = read_ndjson(j["out"])
-        traces = split_traces(events)
-        hung = [e for e in events if e.get("hang")]
-        if hung:
-            run.inconclusive.append("replay %s: a step did not finish: %s" % (j["name"], json.dumps({k: v for k, v in hung[0].items() if k != "obs"})))
-            continue
+        if any(e.get("hang") for e in events):
+            return events, None, None
         ov = {"NH": j["ov"]["NH"]}
         if "Names" in j["ov"]:
             ov["Names"] = j["ov"]["Names"]
         res = run.tlc_trace("LayerTrace", "LayerTrace.cfg", j["out"], ov, timeout=1800)
         clean = monitor_all(run, j["out"], ov, events, "replay-" + j["name"])
+        return events, res, clean
+
+    def validate_free():
+        events = read_ndjson(free)
+        return events, monitor_all(run, free, {"Names": AB, "NH": "1"}, events, "free-run")
+
+    results = par(run, [(lambda j=j: validate(j)) for j in jobs] + [validate_free])
+    for j, (events, res, clean) in zip(jobs, results[:-1]):
+        traces = split_traces(events)
+        hung = [e for e in events if e.get("hang")]
+        if hung:
+            run.inconclusive.append("replay %s: a step did not finish: %s" % (j["name"], json.dumps({k: v for k, v in hung[0].items() if k != "obs"})))
+            continue
         log("[trace] replay %-6s %d traces %d events: conformance %s, monitor %s" %
             (j["name"], len(traces), len(events), "accepted" if res["accepted"] else "REJECTED at line %s" % res["consumed"], "ok" if clean else "VIOLATED"))
         run.cov["evaluations"] += len(events)
@@ -144,9 +178,8 @@ def check(run):
         run.add_samples([{"mode": "replay-" + j["name"], "events": [{k: v for k, v in e.items() if k != "obs"} for e in t[:25]]}
                          for s, t in traces[5:6]], limit=2)
     # ---------------------------------------------------------------- T (monitor only)
-    events = read_ndjson(free)
+    events, clean = results[-1]
     traces = split_traces(events)
-    clean = monitor_all(run, free, {"Names": AB, "NH": "1"}, events, "free-run")
     nsamp = sum(1 for e in events if e.get("ev") == "Sample")
     log("[trace] free-run: %d traces %d events %d samples: monitor %s" % (len(traces), len(events), nsamp, "ok" if clean else "VIOLATED"))
     run.cov["evaluations"] += len(events)
